@@ -57,6 +57,7 @@ int __wrap_epoll_pwait(int epfd, struct epoll_event* ev, int max, int timeout, c
     extern void end_run_ext(void);
     end_run_ext();
     { extern void settle_ext(void); settle_ext(); }
+    { extern void pass_ext(void); pass_ext(); }
     int f = poll_flags();
     printf("w%d:%d%d%d%d ", timeout, (f >> 3) & 1, (f >> 2) & 1, (f >> 1) & 1, f & 1);
   }
@@ -103,6 +104,12 @@ int poll_flags(void) {
  * the run's first callback is entered and that no start/stop/close touches during the run must be
  * called in it ("every handle that stays active for the whole of its phase is called exactly once").
  */
+/* Timer passes, from API-level observations: a pass boundary is the start of a uv_run or a poll.  A timer
+ * (re)started by the program from inside a timer callback must not fire before the next boundary, and no
+ * timer fires twice between two boundaries ("a timer that becomes due during a pass waits for the next
+ * iteration"). */
+static int pass_id, cur_tag = -1;
+static int arm_pass[MAXH], fired_pass[MAXH];
 static int run_kind = -1;
 static unsigned char snap[MAXH], touched[MAXH], called[MAXH];
 static void end_run(void) {
@@ -133,6 +140,11 @@ static void on_cb(int tag, int id) {
     end_run();
   }
   printf("c%d,%d,%" PRIu64 " l%d ", tag, id, uv_now(&loop), uv_loop_alive(&loop) ? 1 : 0);
+  if (tag == 0 && id >= 0 && id < MAXH) {
+    if (arm_pass[id] == pass_id) printf("!samepass%d ", id);
+    if (fired_pass[id] == pass_id) printf("!twice%d ", id);
+    fired_pass[id] = pass_id; arm_pass[id] = -1;
+  }
   k = cbcount++;
   if (k == CAP) {
     int j;
@@ -144,7 +156,10 @@ static void on_cb(int tag, int id) {
         H[j]->closing = 1; uv_close(&H[j]->u.h, close_cb);
       }
   } else if (k < CAP && k < nbeh) {
-    char* copy = strdup(beh[k]); do_ops(copy, 1); free(copy);
+    int prev = cur_tag;
+    char* copy = strdup(beh[k]);
+    cur_tag = tag; do_ops(copy, 1); cur_tag = prev;
+    free(copy);
   }
 }
 
@@ -163,6 +178,7 @@ static void after_cb(uv_work_t* r, int st) { (void) st; cbw_out--; on_cb(5, ((st
 void close_cb(uv_handle_t* h) { H[idx(h)]->closed = 1; on_cb(6, idx(h)); }
 static void work_cb(uv_work_t* r) { (void) r; }
 void settle_ext(void) { settled_null = seen_null; seen_null = qn_null; }
+void pass_ext(void) { pass_id++; }
 
 static void do_ops(char* ops, int in_cb) {
   char* save = NULL; char* tok;
@@ -184,11 +200,15 @@ static void do_ops(char* ops, int in_cb) {
       break; }
     case 'S':
       if (sscanf(tok + 1, "%d,%d,%" SCNu64 ",%" SCNu64, &i, &c, &a, &b) == 4 && usable(i) && H[i]->kind == 't')
-        printf("r%d ", uv_timer_start(&H[i]->u.t, c ? timer_cb : NULL, a, b));
+        { int rr = uv_timer_start(&H[i]->u.t, c ? timer_cb : NULL, a, b);
+          if (rr == 0 && i < MAXH) arm_pass[i] = (cur_tag == 0) ? pass_id : -1;
+          printf("r%d ", rr); }
       break;
     case 'G':
       if (sscanf(tok + 1, "%d", &i) == 1 && usable(i) && H[i]->kind == 't')
-        printf("r%d ", uv_timer_again(&H[i]->u.t));
+        { int rr = uv_timer_again(&H[i]->u.t);
+          if (rr == 0 && i < MAXH && uv_is_active(&H[i]->u.h)) arm_pass[i] = (cur_tag == 0) ? pass_id : -1;
+          printf("r%d ", rr); }
       break;
     case 'P':
       if (sscanf(tok + 1, "%d,%" SCNu64, &i, &a) == 2 && usable(i) && H[i]->kind == 't')
@@ -257,7 +277,7 @@ static void do_ops(char* ops, int in_cb) {
       break; }
     case 'B': printf("b%d ", uv_backend_timeout(&loop)); break;
     case 'R':
-      if (!in_cb && sscanf(tok + 1, "%d", &c) == 1 && printf("g%d,%d ", c, uv_loop_alive(&loop) ? 1 : 0))
+      if (!in_cb && sscanf(tok + 1, "%d", &c) == 1 && ++pass_id && printf("g%d,%d ", c, uv_loop_alive(&loop) ? 1 : 0))
         { int rr = uv_run(&loop, c == 0 ? UV_RUN_DEFAULT : c == 1 ? UV_RUN_ONCE : UV_RUN_NOWAIT); end_run(); settled_null = seen_null; printf("u%d ", rr ? 1 : 0); }
       break;
     case 'Z':
@@ -281,7 +301,7 @@ int main(void) {
     *p1++ = 0; p2 = strchr(p1, ';'); if (!p2) { printf("\n"); continue; }
     *p2++ = 0;
     sscanf(line, "%llu %d", &t0, &metrics);
-    vclock_ms = t0; quiet = 0; npolls = 0; run_kind = -1; cbw_out = qn_null = seen_null = settled_null = 0; nh = nw = nbeh = cbcount = 0;
+    vclock_ms = t0; quiet = 0; npolls = 0; run_kind = -1; pass_id = 1; cur_tag = -1; memset(arm_pass, 0xff, sizeof arm_pass); memset(fired_pass, 0xff, sizeof fired_pass); cbw_out = qn_null = seen_null = settled_null = 0; nh = nw = nbeh = cbcount = 0;
     uv_loop_init(&loop);
     g_loop = &loop;
     if (metrics) uv_loop_configure(&loop, UV_METRICS_IDLE_TIME);
